@@ -1,9 +1,103 @@
 import Iox2.Model.Lifecycle
 import Driver.Util
+/-
+Driver of the lifecycle model (C07 / C04-fs).  One command per line, one output line per command:
+
+  reset                                  empty file system, no processes
+  spawn <n> owner <ntags> <drop 0|1>     process <n> (pid 0): creates the node, creates <ntags> tags, drops it if <drop>
+  spawn <n> monitor <pid>                Node::list for the node
+  spawn <n> cleaner <pid> [<pc>]         Node::list + remove_stale_resources (pc 11: starts at ProcessCleaner::new)
+  trace <n>                              step names of <n> running alone to its end (state unchanged)
+  step <n> [<k>]                         <n> takes k (default 1) steps: their names
+  run <n>                                <n> runs to its end: step names
+  kill <n>                               <n> dies (its locks are released)
+  show <n>                               pc and registers of <n>
+  tag init|final                         a tag file appears in the node directory (left by a port)
+  ls                                     files that exist, by role, with permission class and lock holder
+  survey                                 survivors: Node::list verdict, raw state, clean-up result, what is left after it
+-/
 namespace Driver.LifecycleD
-open Driver
+open Driver Iox2.Lifecycle
 
-def stepLine (s : Unit) (_t : List String) : Unit × String := (s, "unimplemented")
+structure St where
+  fs : FS := {}
+  th : List (String × Th) := []
 
-def comp : Comp := { σ := Unit, init := (), step := stepLine }
+def listVName : ListV → String
+  | .notListed => "notListed" | .skipped => "skipped" | .alive => "Alive" | .dead => "Dead" | .undefined => "Undefined"
+def pstateName : PState → String
+  | .alive => "Alive" | .dead => "Dead" | .doesNotExist => "DoesNotExist" | .starting => "Starting"
+  | .cleaningUp => "CleaningUp" | .corrupted => "err:CorruptedState" | .ctxUnreadable => "err:ContextUnreadable"
+def calName : Cal → String
+  | .alive => "Alive" | .dead => "Dead" | .doesNotExist => "DoesNotExist" | .internalError => "err:InternalError"
+def cresName : CRes → String
+  | .ok => "ok" | .notDead => "none" | .alreadyCleanedUp => "err:ResourcesAlreadyCleanedUp"
+  | .anotherInstance => "err:AnotherInstanceIsCleaningUpTheNode" | .internalError => "err:InternalError"
+  | .panicStillAlive => "PANIC"
+
+def optS {α} (f : α → String) : Option α → String
+  | none => "-" | some a => f a
+
+def permName : Perm → String | .init => "init" | .final => "final"
+def fileS (n : String) (f : File) : List String :=
+  if f.linked then [n ++ ":" ++ permName f.perm ++ (match f.lock with | some p => s!":L{p}" | none => "")]
+  else match f.lock with | some p => [s!"({n}):L{p}"] | none => []
+
+def lsS (fs : FS) : String :=
+  let xs := fileS "ctx" fs.ctx ++ fileS "st" fs.st ++ fileS "ol" fs.ol ++ fileS "det" fs.det ++
+    (if fs.dir then ["dir"] else []) ++ (if fs.tags > 0 then [s!"tag={fs.tags}"] else []) ++
+    (if fs.tagsInit > 0 then [s!"taginit={fs.tagsInit}"] else [])
+  if xs.isEmpty then "-" else joinWith " " xs
+
+def stepsOf (k : Nat) (fs : FS) (t : Th) : FS × Th × List String :=
+  match k with
+  | 0 => (fs, t, [])
+  | k + 1 => match stepL fs t with
+    | none => (fs, t, [])
+    | some (fs', t', s) => let r := stepsOf k fs' t'; (r.1, r.2.1, s :: r.2.2)
+
+def setTh (th : List (String × Th)) (n : String) (t : Th) : List (String × Th) :=
+  (th.filter (·.1 ≠ n)) ++ [(n, t)]
+
+def stepLine (s : St) (t : List String) : St × String :=
+  match t with
+  | ["reset"] => ({}, "ok")
+  | ["spawn", n, "owner", k, d] => ({ s with th := setTh s.th n (mkOwner (nat! k) (d == "1")) }, "ok")
+  | ["spawn", n, "monitor", p] => ({ s with th := setTh s.th n (mkMonitor (nat! p)) }, "ok")
+  | ["spawn", n, "cleaner", p] => ({ s with th := setTh s.th n (mkCleaner (nat! p)) }, "ok")
+  | ["spawn", n, "cleaner", p, pc] => ({ s with th := setTh s.th n { mkCleaner (nat! p) with pc := nat! pc } }, "ok")
+  | ["trace", n] =>
+    match s.th.lookup n with
+    | none => (s, "err:no-such-process")
+    | some th => (s, joinWith ";" (traceSolo fuel s.fs th))
+  | "step" :: n :: rest =>
+    match s.th.lookup n with
+    | none => (s, "err:no-such-process")
+    | some th =>
+      let k := match rest with | [k] => nat! k | _ => 1
+      let r := stepsOf k s.fs th
+      ({ fs := r.1, th := setTh s.th n r.2.1 }, if r.2.2.isEmpty then "-" else joinWith ";" r.2.2)
+  | ["run", n] =>
+    match s.th.lookup n with
+    | none => (s, "err:no-such-process")
+    | some th =>
+      let r := stepsOf fuel s.fs th
+      ({ fs := r.1, th := setTh s.th n r.2.1 }, if r.2.2.isEmpty then "-" else joinWith ";" r.2.2)
+  | ["kill", n] =>
+    match s.th.lookup n with
+    | none => (s, "err:no-such-process")
+    | some th => ({ fs := onDeath s.fs th, th := s.th.filter (·.1 ≠ n) }, "ok")
+  | ["show", n] =>
+    match s.th.lookup n with
+    | none => (s, "err:no-such-process")
+    | some th => (s, s!"pc={th.pc} list={optS listVName th.listed} raw={optS pstateName th.raw} cal={optS (calName ∘ calOf) th.raw} clean={optS cresName th.res}")
+  | ["tag", "init"] => ({ s with fs := { s.fs with tagsInit := s.fs.tagsInit + 1 } }, "ok")
+  | ["tag", "final"] => ({ s with fs := { s.fs with tags := s.fs.tags + 1 } }, "ok")
+  | ["ls"] => (s, lsS s.fs)
+  | ["survey"] =>
+    let v := survey s.fs
+    (s, s!"list={optS listVName v.listed} raw={pstateName v.raw} clean={optS cresName v.clean} left={if v.left.isEmpty then "-" else joinWith "," v.left}")
+  | _ => (s, "err:bad-command")
+
+def comp : Comp := { σ := St, init := {}, step := stepLine }
 end Driver.LifecycleD
